@@ -48,7 +48,7 @@ func c16(c *wk.Ctx) {
 	}()
 	var sess bus.Session
 	n := 0
-	c.Cases("plan", c.Pick(400, 30000), func(i int, rng *rand.Rand) {
+	c.Cases("plan", c.Pick(1200, 30000), func(i int, rng *rand.Rand) {
 		if w == nil || n%60 == 0 {
 			if w != nil {
 				sess.Terminate()
